@@ -57,7 +57,7 @@ def task(item):
                 v_out.append(viol(rtbase.runtime_identity(e, 'encode') + ':' + pos, 'encoding a valid value raised %r' % (e,), inputs, repr(e), json.dumps(exp)))
                 continue
             if rtbase.json_equal(got, exp):
-                oc['same'] += 1
+                oc['same:%s' % rtbase.json_kind(exp)] += 1
             else:
                 oc['differs'] += 1
                 v_out.append(viol('wire:%s:%s' % (pos, rtbase.shape_kind(shape)), 'encoding of %s at %s differs from the wire format: got %s, expected %s' % (
